@@ -211,10 +211,11 @@ def parseFormula (ts : List Token) : Option Formula :=
     | none => none
 
 /-- `extract_vars` (`src/parser.rs:221-230`): the `Var` tokens, unique by id (first occurrence) -/
-def extractVars (ts : List Token) : List (String × Nat) :=
-  ts.foldl (fun acc t => match t with
-    | .var n id => if acc.any (fun p => p.2 == id) then acc else acc ++ [(n, id)]
-    | _ => acc) []
+def extractStep (acc : List (String × Nat)) : Token → List (String × Nat)
+  | .var n id => if acc.any (fun p => p.2 == id) then acc else acc ++ [(n, id)]
+  | _ => acc
+
+def extractVars (ts : List Token) : List (String × Nat) := ts.foldl extractStep []
 
 /-- insertion sort by id (the Rust `sort_by` is stable; ids are unique here) -/
 def insertById (x : String × Nat) : List (String × Nat) → List (String × Nat)
